@@ -16,6 +16,7 @@ METHOD_RE = re.compile('^[A-Z0-9$-_.]{1,20}$')
 VERSION_RE = re.compile(r'^HTTP/(\d+).(\d+)$')
 STATUS_RE = re.compile(r'^(\d{3})(?:\s+([\s\w]*))$')
 HEADER_RE = re.compile('[\\x00-\\x1F\\x7F()<>@,;:/\\[\\]={} \\t\\\\"]')
+VALUE_CTL_RE = re.compile('[\\x00-\\x08\\x0A-\\x1F\\x7F]')
 
 # errors
 BAD_FIRST_LINE = 0
@@ -342,6 +343,8 @@ class HttpParser:
                     curr = curr[:-2]
                 value.append(curr)
             value = ''.join(value).rstrip()
+            if VALUE_CTL_RE.search(value):
+                raise InvalidHeader('invalid character in value of header %s' % name)
 
             # store new header value
             self._headers.add_header(name, value)
